@@ -163,9 +163,24 @@ class BodyQ:
                 return cur, t
             succ = self.b.succs(cur)
             if len(succ) != 1:
-                return None
+                break
             cur = succ[0]
-        return None
+        # not on the straight line (another test sits in between): the one switch on discriminant(local) that after_blk dominates
+        found = []
+        for i, blk in enumerate(self.b.blocks):
+            if blk.get("cleanup"):
+                continue
+            dl = None
+            for s in blk["stmts"]:
+                if s["k"] == "assign" and s["rv"]["k"] == "discr" and s["rv"]["place"]["l"] == local and "p" not in s["rv"]["place"]:
+                    dl = s["place"]["l"]
+            t = blk["term"]
+            if t and t["k"] == "switch" and dl is not None and lib.op_local(t["discr"]) == dl and self.b.dominates(after_blk, i):
+                found.append((i, t))
+        if len(found) > 1:
+            # drop elaboration tests the discriminant again on the way out: the test proper dominates those
+            found = [f for f in found if all(f[0] == g[0] or self.b.dominates(f[0], g[0]) for g in found)]
+        return found[0] if len(found) == 1 else None
 
     def option_edges(self, call_blk):
         """for a call whose destination is an Option<..>/Result<..>: (switch_blk, {variant_index: target}, otherwise)"""
